@@ -37,3 +37,35 @@ func verifEvent(c *Conn, kind string, obj interface{}) {
 	}
 	f(c, kind, id)
 }
+
+// VerifFrameEventFunc receives the frame emission points of writeFrame ("sync:wr-begin" after the
+// header was written, "sync:wr-end" after payload and flush).
+type VerifFrameEventFunc func(c *Conn, kind string, opcode int, fin bool)
+
+var verifFrameHook atomic.Value // of VerifFrameEventFunc
+
+// VerifSetFrameEventHook installs (or, with nil, removes) the frame event hook.
+func VerifSetFrameEventHook(f VerifFrameEventFunc) {
+	if f == nil {
+		verifFrameHook.Store(VerifFrameEventFunc(func(*Conn, string, int, bool) {}))
+		return
+	}
+	verifFrameHook.Store(f)
+}
+
+func verifFrameEvent(c *Conn, kind string, opcode int, fin bool) {
+	f, _ := verifFrameHook.Load().(VerifFrameEventFunc)
+	if f != nil {
+		f(c, kind, opcode, fin)
+	}
+}
+
+// VerifMuNames maps the identity (as passed to the event hook) of each channel mutex of c to its name.
+func VerifMuNames(c *Conn) map[uintptr]string {
+	return map[uintptr]string{
+		reflect.ValueOf(c.readMu).Pointer():            "readMu",
+		reflect.ValueOf(c.writeFrameMu).Pointer():      "writeFrameMu",
+		reflect.ValueOf(c.msgWriter.mu).Pointer():      "msgWriter.mu",
+		reflect.ValueOf(c.msgWriter.writeMu).Pointer(): "msgWriter.writeMu",
+	}
+}
